@@ -80,12 +80,12 @@ def oracle(chk, scn, obs, stats):
     ids_f = {v[1]: p for p, v in fin.items() if v[0] != "d"}
     if scn["mode"] == "name":
         # (b) a file never changes its parent directory
-        if scn["strategy"] not in ("override",) and not any(pipe.is_override_answer(a) for a in scn["answers"]):
-            for i, p in ids_i.items():
-                q = ids_f.get(i)
-                if q is not None and os.path.dirname(q) != os.path.dirname(p):
-                    chk.oracle_fail("name mode moved %r to another directory: %r" % (p, q), case)
-                    return
+        # (also under override: an overwritten entry disappears, but nothing ever changes its parent)
+        for i, p in ids_i.items():
+            q = ids_f.get(i)
+            if q is not None and os.path.dirname(q) != os.path.dirname(p):
+                chk.oracle_fail("name mode moved %r to another directory: %r" % (p, q), case)
+                return
         # (c) an empty name or one containing a separator is refused
         for e in scn["plan"]:
             kind, val = e["r"]
